@@ -48,7 +48,8 @@ def _worker(arg):
           and all(params.get(a) == b for a, b in (k.get('params') or {}).items())]
     # watchdog: a job that does not come back (e.g. the code under analysis loops forever) is cut
     import signal
-    limit = int(opts.get('deadline_s', 1800)) + 120
+    default_deadline = 600 if tier == 'quick' else 1800
+    limit = int(opts.get('deadline_s', default_deadline)) + 60
 
     def _alarm(signum, frame):
         raise cxm.Budget('job exceeded its wall-clock limit of %d s (the code under analysis may not terminate)' % limit)
@@ -57,7 +58,7 @@ def _worker(arg):
         signal.alarm(limit)
     except (ValueError, OSError):
         pass
-    opts.setdefault('deadline_s', 1800)
+    opts.setdefault('deadline_s', default_deadline)
     try:
         res = cxm.run_job(hdef, params, known=kn, repo_prefix=repo_root(), **opts)
     except BaseException as e:   # noqa: BLE001
